@@ -4,6 +4,10 @@ package main
 
 import (
 	"fmt"
+	"os"
+	"path/filepath"
+	"rare/pkg/expressions"
+	"rare/pkg/expressions/funclib"
 	"strconv"
 	"strings"
 	"unicode/utf8"
@@ -96,18 +100,25 @@ var c11Paths = []string{
 	"", "/", "a", "a/b", "/a/b", "/a/b.txt", "a/b/c.tar.gz", "a/", "a//b", "./a", "../a", "/a/./b", ".", "..", ".hidden", "a.b/c", "/.x",
 	"//", "a/b/", "x.", "/a", "a/b/c/d", "/usr/lib/x.so.1", "a/../b", "a/./", "///a", "a/b//", "noext", "a\\b", "a\x00/b.c", "hé/l.é",
 	"a/.", "a/..", "a/b/..", "/..", ".a/b", "a b/c d.e f",
+	"a/b/../c/x", "../../a/b", "/../a/x", "a/../../b/x", "/a/b/../../../c/d", "./../x/y", "a/./b/./c", "..//x", "a//b//c/",
+	"../..", "/../..", "a/../x", "x/../../", ".../a", "..a/b", "a/..b/c", "a/b/../../x", "a/b/../../../x", "/./x", "/a/../x",
+	"../a/../../b/c", "a/b/c/../../../../d/e", "./", "./.", "../", "..//", "/a//../b/", "\xff/../x/y", "a/\x00/../b",
 }
 
 var c11Tables = []string{
 	"a 1\nb 2\nc", "#c\na 1\na 2", "k v extra\nx y", "a\t1\r\nb  2\r\n", "", "\n\n", "# a 1\nb 2", "a 1\n b 2", "abc def",
 	"a 1\nb 2\na 3\n", "  a   1  \n\n b\n", "a\r\nb 2\r", "x", "#x", "# #\n## 1", "a 1 \x00\nb\x002 3", "\xffk v", "a 1\n#a 2\n//a 3", "abc 1\nab 2\na 3",
+	"a\u00a0b 1", "k\u2003v", "\u3000k v\u3000", "a\xc2b 1", "a\xe2\x80 b", "k\u0085v\nz\u20281", "\xe2\x80\xa8 k v", "k\u200bv w",
+	"k\u1680v\u205fw", "\xe2\xc2\x85k v", "a\u202fb\nq\xe3\x80r s", "é 1\nü\u00a02", "k\u2028v", "k\xe2\x80\x8bv x",
 }
 
 var c11Prefixes = []string{"", "#", "//", "a", "# ", "b", "\x00"}
 
-var c11Counts = []string{"0", "1", "2", "3", "10", "-1", "-5", "100", "", "x", "1.5", "-9223372036854775808", "+2", "007"}
+var c11Counts = []string{"0", "1", "2", "3", "10", "-1", "-5", "100", "", "x", "1.5", "-9223372036854775808", "+2", "007",
+	"1048576", "1048577", "524288", "524289", "349525", "349526", "1000000000000000000", "9223372036854775807", "4", "7"}
 
-var c11Precs = []string{"0", "1", "2", "3", "-1", "-2", "10", "", "x", "1.5", "+1"}
+var c11Precs = []string{"0", "1", "2", "3", "-1", "-2", "10", "", "x", "1.5", "+1", "0", "1", "2",
+	"1023", "1024", "1025", "50000000000", "9223372036854775807", "-9223372036854775808"}
 
 var c11Uints = []string{
 	"0", "1", "999", "1000", "1001", "1023", "1024", "1025", "1500", "2048", "1000000", "1048576", "1073741824", "1000000000", "5000000",
@@ -309,8 +320,8 @@ func c11GenHelper(r *Rand, h c11Helper) []c11Arg {
 		if i < len(h.kinds) {
 			k = h.kinds[i]
 		}
-		// (never for precisions and repeat counts: huge ones make FormatFloat / strings.Repeat run
-		// for minutes or exhaust memory, which is C08's subject, not a question of semantics)
+		// (not for precisions and repeat counts: their pools hold the boundary values of the caps
+		// maxPrecision / maxRepeatBytes; a precision supplied by a match group is rejected as <CONST>)
 		if k != kPrec && k != kCount && r.Chance(1, 25) { // a value of a foreign kind
 			k = c11Kind(r.Intn(int(kIdx) + 1))
 		}
@@ -348,6 +359,9 @@ func c11Gen(r *Rand, tier string) []string {
 	}
 	if tier == "thorough" {
 		out = append(out, c11Exhaustive(r)...)
+		out = append(out, c11LookupCases(r, 20000, true)...)
+	} else {
+		out = append(out, c11LookupCases(r, 300, false)...)
 	}
 	return out
 }
@@ -444,10 +458,75 @@ func c11Run(f []string) (res string) {
 			res = "panic"
 		}
 	}()
+	if len(f) == 5 && f[0] == "lookupfile" {
+		return c11LookupFile(f)
+	}
 	if s, ok := exprRun(f); ok {
 		return s
 	}
 	return "bad-op"
+}
+
+// c11LookupFile evaluates {lookup|haskey {0} {load FILE} [prefix]} on the real code with FILE
+// holding the table text (so the text can be arbitrary bytes and as long as the scanner's limits).
+func c11LookupFile(f []string) string {
+	dir := os.Getenv("VERIF_WORK")
+	if dir == "" {
+		dir = "/verif/work/tmp"
+	}
+	os.MkdirAll(dir, 0o755)
+	path := filepath.Join(dir, fmt.Sprintf("c11-lookup-%d.txt", os.Getpid()))
+	if err := os.WriteFile(path, UnHex(f[3]), 0o644); err != nil {
+		return "harness-error " + err.Error()
+	}
+	defer os.Remove(path)
+	t := "{" + f[1] + " {0} {load " + path + "}"
+	if f[4] != "." {
+		t += " \"" + string(UnHex(f[4])) + "\""
+	}
+	t += "}"
+	kb := funclib.NewKeyBuilderEx(true)
+	compiled, _ := kb.Compile(t)
+	if compiled == nil {
+		return "nil-compiled"
+	}
+	val := compiled.BuildKey(&expressions.KeyBuilderContextArray{Elements: []string{string(UnHex(f[2]))}})
+	return "ok val=" + HexS(val)
+}
+
+// c11LookupCases: tables with arbitrary bytes, and lines around bufio.MaxScanTokenSize.
+func c11LookupCases(r *Rand, n int, big bool) []string {
+	var out []string
+	alpha := []string{"a", "b", "k", "v", " ", " ", "\t", "\n", "\n", "\r", "#", "/", "\x00", "\xff", "\xc2", "\x85", "\xa0",
+		"\xe2", "\x80", "\xa8", "\x81", "\x9f", "\xe3", "\u00a0", "\u2003", "\u3000", "{", "}", "\\", "\"", "\v", "\f", "é"}
+	prefixes := []string{".", ".", HexS("#"), HexS("//"), HexS("a"), HexS("# ")}
+	for i := 0; i < n; i++ {
+		var sb strings.Builder
+		for j := r.Intn(30); j > 0; j-- {
+			sb.WriteString(Pick(r, alpha))
+		}
+		content := sb.String()
+		fields := strings.Fields(content)
+		key := Pick(r, []string{"a", "k", "b", "", "v"})
+		if len(fields) > 0 && r.Chance(2, 3) {
+			key = Pick(r, fields)
+		}
+		out = append(out, fmt.Sprintf("lookupfile %s %s %s %s", Pick(r, []string{"lookup", "haskey"}), HexS(key), HexS(content), Pick(r, prefixes)))
+	}
+	if big {
+		for _, ln := range []int{65534, 65535, 65536, 65537} {
+			line := "k " + strings.Repeat("x", ln-2)
+			for _, content := range []string{
+				"a 1\n" + line + "\nz 9\n", "a 1\n" + line, line + "\nz 9", "a 1\n" + line[:ln-1] + "\r\nz 9",
+				strings.Repeat("q 1\n", 20000) + line + "\nz 9\n",
+			} {
+				for _, key := range []string{"k", "z", "a"} {
+					out = append(out, fmt.Sprintf("lookupfile %s %s %s .", Pick(r, []string{"lookup", "haskey"}), HexS(key), HexS(content)))
+				}
+			}
+		}
+	}
+	return out
 }
 
 func c11Stats(cases []string) map[string]int {
@@ -455,6 +534,13 @@ func c11Stats(cases []string) map[string]int {
 	for _, c := range cases {
 		f := strings.Fields(c)
 		if len(f) != 5 {
+			continue
+		}
+		if f[0] == "lookupfile" {
+			st["op.lookupfile"]++
+			if len(f[3]) > 100000 {
+				st["op.lookupfile.longLine"]++
+			}
 			continue
 		}
 		st["opt."+f[1]]++
